@@ -84,9 +84,22 @@ func genC16(r *Rng, tier string, idx int) *Plan {
 				k = "login"
 			}
 		}
-		par = append(par, Op{ID: id, Kind: k, F: r.Intn(nf), B: i, Path: genTarget(r)})
+		op := Op{ID: id, Kind: k, F: r.Intn(nf), B: i, Path: genTarget(r)}
+		if (k == "refresh" || k == "fresh") && r.Bool() {
+			// several concurrent checks on ONE session (same cookie): D-1 is the task whose session is shared
+			for j := range par {
+				if par[j].Kind == k && par[j].F == op.F {
+					op.D = j + 1
+				}
+			}
+		}
+		par = append(par, op)
 	}
 	p.Ops = []Op{{ID: 100, Kind: "par", Par: par}}
+	if r.Chance(0.25) {
+		// the watched CA file is unreadable as PEM when the service first uses it and is repaired later
+		p.Ops[0].S = "ca-initially-torn"
+	}
 	return p
 }
 
@@ -169,7 +182,11 @@ func runC16(p *Plan) *Result {
 			spec.IdPs[spec.Filters[i].IdP].ServerCA = 0
 		}
 	}
-	_ = os.WriteFile(caPath, []byte(pki.CAs[0].PEM), 0o600)
+	initial := pki.CAs[0].PEM
+	if len(p.Ops) > 0 && p.Ops[0].S == "ca-initially-torn" {
+		initial = initial[:len(initial)/2]
+	}
+	_ = os.WriteFile(caPath, []byte(initial), 0o600)
 	w := NewWorld(&spec, p.SchedSeed, p.Policy, nil)
 	w.Lean = true
 	installHooks(w.Sim)
@@ -213,6 +230,14 @@ func runC16(p *Plan) *Result {
 			}
 		}
 	}
+	share := func() {
+		for i := range tasks {
+			if d := tasks[i].D; d > 0 && d-1 < len(tasks) && (tasks[i].Kind == "refresh" || tasks[i].Kind == "fresh") {
+				cookies[i] = cookies[d-1]
+			}
+		}
+	}
+	share()
 	if needExpiry {
 		// "fresh" sessions created now stay fresh: refresh ones are created first, then time passes
 		w.Advance(301*time.Second + 500*time.Microsecond)
@@ -221,6 +246,7 @@ func runC16(p *Plan) *Result {
 				cookies[i], _ = directLogin(w, tasks[i].F, 200+i, tasks[i].Path)
 			}
 		}
+		share()
 	}
 	// ---- the concurrent part ----
 	outs := make([]raceOutcome, len(tasks))
